@@ -15,6 +15,7 @@ import (
 	"path/filepath"
 	"runtime"
 	"runtime/debug"
+	"runtime/pprof"
 	"sort"
 	"strconv"
 	"strings"
@@ -163,6 +164,17 @@ func Main(id, level string, run func(c *Ctx), replay ReplayFunc) {
 		os.Exit(2)
 	}
 	c.Quick = c.Tier == "quick"
+	if p := os.Getenv("VERIF_HEAPPROF"); p != "" { // maintenance: a heap profile every 20 s
+		go func() {
+			for i := 0; ; i++ {
+				time.Sleep(20 * time.Second)
+				if f, err := os.Create(fmt.Sprintf("%s.%d", p, i)); err == nil {
+					pprof.WriteHeapProfile(f)
+					f.Close()
+				}
+			}
+		}()
+	}
 	run(c)
 	os.Exit(c.Finish())
 }
